@@ -1393,3 +1393,41 @@ Proof.
   intros c H. unfold chain_hyps in H. apply andb_true_iff in H as [H H3]. apply andb_true_iff in H as [H1 H2].
   split; [exact H1|]. split; [exact H2|]. apply nodupb_sound, H3.
 Qed.
+
+(* ================================================================== safety under EVERY history *)
+(* Whatever the service history (any kill points, any restarts, empty-DB restarts included), the database only ever
+   holds entries of the in-order index of the chain: the empty-DB resume rule loses entries, it never corrupts any. *)
+Lemma write_sub : forall c, wf_chain c = true -> NoDup (chain_hashes c) ->
+  forall d H b, sub d (run c) -> block_at c H = Some b -> sub (db_write d (index_block H b)) (run c).
+Proof.
+  intros c Hw Hnd d H b S Hb k v Hg. unfold db_write in Hg. rewrite db_get_app in Hg.
+  destruct (db_get k (rev (index_block H b))) as [v'|] eqn:E.
+  - inversion Hg; subst. apply db_get_in, in_rev in E. eapply block_present; eauto.
+  - apply S, Hg.
+Qed.
+
+Lemma index_from_sub : forall c, wf_chain c = true -> NoDup (chain_hashes c) ->
+  forall n from d, sub d (run c) -> sub (index_from c d from n) (run c).
+Proof.
+  intros c Hw Hnd n. induction n as [|n IH]; intros from d S; cbn [index_from]; [exact S|].
+  destruct (block_at c (from + 1)) as [b|] eqn:Hb; [|exact S].
+  apply IH. apply write_sub; assumption.
+Qed.
+
+Theorem life_sub : forall c, wf_chain c = true -> NoDup (chain_hashes c) ->
+  forall earliest l, sub (life c earliest l) (run c).
+Proof.
+  intros c Hw Hnd earliest l. unfold life.
+  assert (G : forall d, sub d (run c) -> sub (fold_left (run_incarnation c earliest) l d) (run c)).
+  { induction l as [|i l IH]; intros d S; [exact S|]. cbn [fold_left]. apply IH.
+    unfold run_incarnation. apply index_from_sub; assumption. }
+  apply G. intros k v H. discriminate.
+Qed.
+
+Theorem any_history_answers_are_real : forall c, wf_chain c = true -> NoDup (chain_hashes c) ->
+  forall earliest l h r, get_by_hash (life c earliest l) h = Some r -> get_by_hash (run c) h = Some r.
+Proof.
+  intros c Hw Hnd earliest l h r H. unfold get_by_hash in *.
+  destruct (db_get (KHash h) (life c earliest l)) as [[x|x]|] eqn:E; try discriminate.
+  inversion H; subst. rewrite (life_sub c Hw Hnd earliest l _ _ E). reflexivity.
+Qed.
